@@ -56,7 +56,7 @@ func main() {
 	r.Floor("twin.compared", 1500)
 	r.Floor("canon.compared", 1500)
 	for _, f := range []string{"failed.play:bad-first", "failed.play:award+bad", "failed.play:good+bad", "failed.confirm:unknown-parent", "failed.confirm:second-genesis",
-		"failed.confirm:two-coinbase", "failed.confirm:dup-tx", "failed.dotx", "failed.walk", "fault.confirm", "fault.play", "fault.walk", "fault.dotx"} {
+		"failed.confirm:two-coinbase", "failed.confirm:dup-tx", "failed.dotx", "failed.walk", "fault.confirm", "fault.play", "fault.walk", "fault.dotx", "fault.mine"} {
 		r.Floor(f, 5)
 	}
 	r.Floor("walk.undo", 20)
